@@ -12,6 +12,7 @@ import (
 	"sync"
 	"sync/atomic"
 	"time"
+	"verifharness/lib"
 
 	"sigs.k8s.io/controller-runtime/pkg/client"
 	"sigs.k8s.io/controller-runtime/pkg/client/fake"
@@ -84,7 +85,7 @@ func RaceWorker() {
 // It does not touch evidence/C19.json; the summary is picked up (labelled sampled) by the next main run.
 func RaceStage(bin string) int {
 	cmd := exec.Command(bin, "C19", "--race-worker")
-	cmd.Dir = "/repo"
+	cmd.Dir, _ = os.Getwd()
 	cmd.Env = append(os.Environ(), "GORACE=halt_on_error=0")
 	var out, errb bytes.Buffer
 	cmd.Stdout, cmd.Stderr = &out, &errb
@@ -111,11 +112,11 @@ func RaceStage(bin string) int {
 	if inRepo > 0 || fatal {
 		verdict = 1
 		sum["first_report"] = firstN(text[strings.Index(text+"WARNING: DATA RACE", "WARNING: DATA RACE"):], 6000)
-		_ = os.MkdirAll("/verif/out/C19", 0o755)
+		_ = os.MkdirAll(lib.OutRoot()+"/out/C19", 0o755)
 		b, _ := json.MarshalIndent(map[string]interface{}{"property": "C19", "signature": "C19/race", "detail": sum["first_report"],
 			"replay": map[string]interface{}{"race_binary": bin, "args": []string{"C19", "--race-worker"}}}, "", " ")
-		_ = os.WriteFile("/verif/out/C19/C19_race.json", b, 0o644)
-		fmt.Printf("VIOLATION property=C19 replay=/verif/out/C19/C19_race.json\n  signature: C19/race\n  detail: %s\n", firstN(fmt.Sprint(sum["first_report"]), 1500))
+		_ = os.WriteFile(lib.OutRoot()+"/out/C19/C19_race.json", b, 0o644)
+		fmt.Printf("VIOLATION property=C19 replay=%s/out/C19/C19_race.json\n  signature: C19/race\n  detail: %s\n", lib.OutRoot(), firstN(fmt.Sprint(sum["first_report"]), 1500))
 	} else if races > 0 {
 		fmt.Printf("NOTE %d race report(s) without a repository frame (harness/fake client), not counted\n%s\n", races, firstN(text, 3000))
 	}
